@@ -24,6 +24,9 @@ CONSTANTS
   WaitTruthful = TRUE
   TermOwnTimeout = TRUE
   ClosedGuard = TRUE
+  EnqChecksAlive = TRUE
+  WaitSwallowsBadResult = TRUE
+  AliveAsksServer = TRUE
 INVARIANT TypeOK
 CHECK_DEADLOCK FALSE
 INVARIANT PathDump
